@@ -2,6 +2,7 @@ package main
 
 import (
 	"encoding/json"
+	"flag"
 	"fmt"
 	"go/types"
 	"os"
@@ -487,4 +488,66 @@ func runReplayTest(repo, pkgDir, pkgName, src, tag string) (string, error) {
 		<-done
 	}
 	return string(out), err
+}
+
+// cmdReplay re-runs a recorded violation against the repository's current tree:
+// the generated in-package test, when the record has one, and the named obligation.
+func cmdReplay(args []string) int {
+	fs := flag.NewFlagSet("replay", flag.ExitOnError)
+	repo := fs.String("repo", "/repo", "repository working tree")
+	file := fs.String("file", "", "replay record (json)")
+	spec := fs.String("spec", "/verif/spec", "extern spec directory")
+	fs.Parse(args)
+	data, err := os.ReadFile(*file)
+	if err != nil {
+		fmt.Fprintln(os.Stderr, err)
+		return 2
+	}
+	var rr ReplayRecord
+	if err := json.Unmarshal(data, &rr); err != nil {
+		fmt.Fprintln(os.Stderr, err)
+		return 2
+	}
+	fmt.Printf("replay: property=%s obligation=%s recorded verdict=%s\n", rr.Property, rr.Obligation, rr.Verdict)
+	fmt.Printf("replay: %s\n", rr.Summary)
+	rc := 0
+	if rr.TestSource != "" && rr.PkgDir != "" {
+		pkgDir := rr.PkgDir
+		if rel, err := filepath.Rel("/repo", rr.PkgDir); err == nil && !strings.HasPrefix(rel, "..") {
+			pkgDir = filepath.Join(*repo, rel)
+		}
+		out, _ := runReplayTest(*repo, pkgDir, "", rr.TestSource, "re")
+		for _, l := range strings.Split(out, "\n") {
+			if strings.Contains(l, "GOVC-REPLAY") {
+				fmt.Println("replay test: " + strings.TrimSpace(l))
+			}
+		}
+		if strings.Contains(out, "GOVC-REPLAY: PANIC") {
+			rc = 1
+		}
+	} else {
+		fmt.Println("replay test: none recorded (no model, or inputs not rebuildable): re-checking the obligation only")
+	}
+	// re-check the obligation on the current tree
+	fn := rr.Obligation
+	if i := strings.Index(fn, "/"); i >= 0 {
+		fn = fn[:i]
+	}
+	self, _ := os.Executable()
+	cmd := exec.Command(self, "check", "-repo", *repo, "-prop", rr.Property, "-spec", *spec, "-func", fn, "-noreplay", "-v", "-replays", filepath.Join(scratchDir(), "replay_recheck"))
+	out, _ := cmd.CombinedOutput()
+	still := false
+	for _, l := range strings.Split(string(out), "\n") {
+		if strings.Contains(l, rr.Obligation) && (strings.HasPrefix(strings.TrimSpace(l), "failed") || strings.HasPrefix(strings.TrimSpace(l), "undecided")) {
+			still = true
+			fmt.Println("obligation now: " + strings.TrimSpace(l))
+		}
+	}
+	os.RemoveAll(filepath.Join(scratchDir(), "replay_recheck"))
+	if still {
+		fmt.Printf("VIOLATION property=%s replay=%s obligation=%s still fails on this tree\n", rr.Property, *file, rr.Obligation)
+		return 1
+	}
+	fmt.Println("obligation now: discharged (or no longer generated) on this tree")
+	return rc
 }
